@@ -24,6 +24,7 @@ type MsgSpec struct {
 	HasRaw     bool   `json:"has_raw,omitempty"`     // RawPayload is meant even if empty (survives JSON)
 	Flags      *int   `json:"flags,omitempty"`       // override flag byte (hostile)
 	LenDelta   int    `json:"len_delta,omitempty"`   // declared length = real length + delta (hostile)
+	Pad        int    `json:"pad,omitempty"`         // the compressed form carries this many empty stored blocks (legal; inflates to the same bytes)
 }
 
 type RespPlan struct {
@@ -685,7 +686,7 @@ func (h *backendHandler) renderResponse(st *rpcState, obs *BackendObs, override 
 			payload := encode(ms)
 			var fl byte
 			if ms.Compressed && comp != "" && ms.RawPayload == nil {
-				payload = refCompress(comp, payload)
+				payload = refCompressPadded(comp, payload, ms.Pad)
 				fl = 1
 			}
 			if ms.Flags != nil {
@@ -827,7 +828,7 @@ func (h *backendHandler) renderResponse(st *rpcState, obs *BackendObs, override 
 			rr.body = encode(msgs[0])
 			rr.nmsgs = 1
 			if comp != "" && msgs[0].Compressed && msgs[0].RawPayload == nil {
-				rr.body = refCompress(comp, rr.body)
+				rr.body = refCompressPadded(comp, rr.body, msgs[0].Pad)
 				rr.headers.Set("Content-Encoding", comp)
 			}
 			if comp != "" && msgs[0].RawPayload != nil {
@@ -876,7 +877,7 @@ func (h *backendHandler) renderResponse(st *rpcState, obs *BackendObs, override 
 			}
 			rr.nmsgs = 1
 			if comp != "" && msgs[0].Compressed {
-				rr.body = refCompress(comp, rr.body)
+				rr.body = refCompressPadded(comp, rr.body, msgs[0].Pad)
 				rr.headers.Set("Content-Encoding", comp)
 			}
 			rr.payloads = append(rr.payloads, rr.body)
